@@ -95,10 +95,6 @@ def signatures(line):
         a, b = int(t[2]), int(t[3])
         if b != 0 and a % b != 0 and (a < 0) != (b < 0):
             sig.append("C04-F1")
-    if t[0] == "str":
-        c = str_content(line)
-        if "\\" in c or "\r" in c:
-            sig.append("C04-F2")
     if t[0] == "vec":
         ops = vec_ops(line)
         ff = vec_first_failure(ops)
@@ -148,7 +144,7 @@ def leg_matches(tok, leg, kind):
     if leg == "unreached":
         return False
     text, end = leg
-    if kind in ("vec", "veq", "seq"):
+    if kind in ("vec", "veq", "seq", "vecr", "veqr"):
         toks = [x for x in text.decode("utf-8", "replace").split("\n") if x != ""]
         if end and end != "ok":
             if end.startswith("panic:"):
@@ -160,6 +156,8 @@ def leg_matches(tok, leg, kind):
         return ",".join(toks) == tok
     if tok == "syn":
         return None   # model makes no prediction (not a single template literal)
+    if kind == "tag":
+        return end is None and "s" + text.decode("utf-8", "replace").replace(" ", "_") == tok
     if tok == "trap":
         return text == b"" and bool(end) and end.startswith("trap:")
     if end is not None:
@@ -265,7 +263,7 @@ def gen_str(rng, flavour):
     if flavour == "plain":
         s = ""
         for _ in range(n):
-            s += '\\"' if rng.chance(1, 8) else (rng.pick(NONASCII + ["${", "${1}", "`"]) if rng.chance(1, 7) else gen_plain_text(rng, 1))
+            s += '\\"' if rng.chance(1, 8) else (rng.pick(NONASCII + ["${", "${1}", "`", "\r"] + ESC + ["\\0" + rng.pick("0189a")]) if rng.chance(1, 4) else gen_plain_text(rng, 1))
         return "str " + hexs(s)
     parts = [gen_plain_text(rng, 1) for _ in range(n)]
     k = rng.range(1, 3)
@@ -383,11 +381,48 @@ def gen_seq(rng):
     return f"seq {hexs(a)} {na} {hexs(b)} {nb}"
 
 
+def gen_vecr(rng):
+    """call sequences on a Vec of references (objects 0..3; 2 and 3 have equal content)"""
+    ops, size = [], 0
+    for _ in range(rng.range(1, 10)):
+        o = rng.weighted([("push", 5), ("pop", 2), ("get", 3), ("set", 2), ("len", 1)])
+        if o == "push":
+            ops.append(f"push:{rng.below(4)}"); size += 1
+        elif o == "pop":
+            ops.append("pop"); size = max(0, size - 1)
+        elif o in ("get", "set"):
+            i = rng.below(size) if size and rng.chance(5, 6) else rng.pick([size, -1, size + 2])
+            ops.append(f"get:{i}" if o == "get" else f"set:{i}:{rng.below(4)}")
+        else:
+            ops.append("len")
+    return "vecr " + " ".join(ops)
+
+
+def gen_veqr(rng):
+    a = [rng.below(4) for _ in range(rng.range(0, 4))]
+    shape = rng.below(5)
+    b = {0: list(a), 1: a + [rng.below(4)], 2: a[:rng.below(len(a) + 1)], 3: [3 if x == 2 else (2 if x == 3 else x) for x in a],
+         4: [rng.below(4) for _ in range(rng.range(0, 4))]}[shape]
+    f = lambda l: ",".join(str(x) for x in l) if l else "-"
+    return f"veqr {f(a)} {f(b)}"
+
+
+def gen_tag(rng):
+    """variant tests on unboxed payloads: one-field struct / Vec<int> whose content is a small number
+    (odd numbers are the printed i31 tags), empty Vec, and the payload-free variants themselves"""
+    k = rng.below(10)
+    if k < 5:
+        return f"tag box {rng.pick([0, 1, 2, 3, 4, 5, 7, -1, rng.range(0, 40) - 20, gen_int(rng)])}"
+    if k < 8:
+        return "tag vec " + rng.pick(["-", "0", "1", "3", "5", "2", str(rng.range(0, 10))])
+    return rng.pick(["tag none 0", "tag other 0"])
+
+
 def gen_stream(rng, n_bulk):
     """bulk stream: steered away from the open signatures"""
     lines = []
     for _ in range(n_bulk):
-        k = rng.weighted([("bin", 44), ("str", 20), ("i2s", 8), ("s2i", 7), ("vec", 6), ("vecfull", 5), ("veq", 6), ("seq", 4)])
+        k = rng.weighted([("bin", 44), ("str", 20), ("i2s", 8), ("s2i", 7), ("vec", 6), ("vecfull", 5), ("veq", 6), ("seq", 4), ("tag", 5), ("vecr", 3), ("veqr", 3)])
         if k == "bin":
             lines.append(gen_bin(rng))
         elif k == "str":
@@ -402,6 +437,12 @@ def gen_stream(rng, n_bulk):
             lines.append(gen_veq(rng))
         elif k == "seq":
             lines.append(gen_seq(rng))
+        elif k == "tag":
+            lines.append(gen_tag(rng))
+        elif k == "vecr":
+            lines.append(gen_vecr(rng))
+        elif k == "veqr":
+            lines.append(gen_veqr(rng))
         else:
             lines.append(gen_vec(rng, rng.pick(["ok", "ok", "fail"])))
     return lines
@@ -421,15 +462,14 @@ def gen_probes(rng, per):
             if a % b == 0:
                 a, b = -7, 2
         out.append(("C04-F1", f"bin DIV {a} {b}"))
-        out.append(("C04-F2", gen_str(rng, rng.pick(["escape", "escape", "cr"]))))
+        out.append((None, gen_str(rng, rng.pick(["escape", "escape", "cr"]))))
         out.append(("C04-F5", gen_vec(rng, "i31")))
         out.append(("C04-F5", gen_veq(rng, big=True)))
         out.append((None, gen_str(rng, "malformed")))
     return out
 
 
-FIXED_PROBES = [("C04-F1", "bin DIV -7 2"), ("C04-F1", "bin DIV 7 -2"), ("C04-F2", "!str " + hexs("a\\nb")),
-                ("C04-F2", "!str " + hexs("a\rb")), ("C04-F5", "vec push:2000000000 get:0"),
+FIXED_PROBES = [("C04-F1", "bin DIV -7 2"), ("C04-F1", "bin DIV 7 -2"), ("C04-F5", "vec push:2000000000 get:0"),
                 ("C04-F5", "veq 1073741824 -1073741824")]
 
 
@@ -480,7 +520,7 @@ def nontrivial(line, impl_ans):
         return len(t) >= 3
     if t[0] == "veq":
         return t[1] != "-" or t[2] != "-"
-    if t[0] == "seq":
+    if t[0] in ("seq", "tag", "vecr", "veqr"):
         return True
     return False
 
@@ -868,6 +908,9 @@ def dense_lines():
     out += [f"veq {a} {b}" for a in els for b in els]
     strs = [("", 0), ("", 1), ("a", 1), ("a", 12), ("ab", 1), ("a1", 2), ("b", 1)]
     out += [f"seq {hexs(a)} {x} {hexs(b)} {y}" for a, x in strs for b, y in strs]
+    out += ["vecr push:0 push:2 push:3 get:1 get:2 set:0:3 get:0 pop pop pop pop", "vecr get:0", "vecr push:1 len pop len",
+            "veqr 2 3", "veqr 2 2", "veqr 0,1 0,1,2", "veqr - 0", "veqr - -", "veqr 0,2 0,3"]
+    out += [f"tag box {n}" for n in range(-2, 8)] + [f"tag vec {n}" for n in ["-", 0, 1, 2, 3, 5]] + ["tag none 0", "tag other 0"]
     out += ["vec new:of:7 get:0 push:1 cap res:20 cap len pop pop len", "vec new:cap:16 cap len push:3 cap pop len",
             "vec new:cap:0 push:1 push:2 get:1 cap", "vec res:-1 cap res:3 cap push:1 res:9 cap get:0"]
     out += ["vec push:1 push:2 pop len get:0 set:0:5 get:0", "vec push:-1073741824 push:1073741823 get:0 get:1",
@@ -962,7 +1005,7 @@ def run(ctx):
         "partial_theorems": {
             "bin_agree_partial": "DIV: a % b = 0 or operands of equal sign (exact by div_agree_iff); SHR: 0 <= a",
             "i31_roundtrip_partial": "-2^30 <= n < 2^30 (exact by i31_roundtrip_iff)",
-            "strconst_agree_partial": "literal whose only escape is \\\" and without raw CR (any Unicode, back quotes, ${ allowed); content form: no backslash, no CR",
+
             "vec_agree_partial / vec_eq_agree_partial": "all stored ints in i31 range (failing calls included)"},
         "pending": PENDING})
     ctx.assumptions += [
@@ -978,8 +1021,7 @@ def run(ctx):
 
 
 MAX_REPORTS = 4
-PENDING = ["strconst iff-characterisation over all lexer-accepted literals (exactly which escape sequences disagree)",
-           "Vec of reference elements (Vec<Str>, Vec<Vec<int>>): element identity is only exercised by tests.AllTests, not modelled"]
+PENDING = ["Vec of reference elements (Vec<Str>, Vec<Vec<int>>): element identity is only exercised by tests.AllTests, not modelled"]
 
 
 def replay(ctx, path):
